@@ -19,7 +19,9 @@ SHAPE_INT = ['period', 'time_peak', 'time_trough', 'time_decay', 'time_rise']
 SHAPE_FLT = ['volt_peak', 'volt_trough', 'volt_decay', 'volt_rise', 'volt_amp', 'time_rdsym', 'time_ptsym', 'band_amp']
 BURST = ['amp_fraction', 'amp_consistency', 'period_consistency', 'monotonicity', 'burst_fraction']
 TRUST = ['reference band-pass sign bits, amplitude envelope and dual-threshold mask are computed by the harness with '
-         'neurodsp exactly as documented (pad = ceil(filt_len/2), remove_edges=False, n_cycles=3 for the envelope)',
+         'neurodsp exactly as documented (pad = ceil(filt_len/2), remove_edges=False, n_cycles=3 for the envelope; for a '
+         'direct compute_shape_features(n_cycles=k) call k for the envelope and for the default extrema filter), always on '
+         'the float64 value of the samples',
          'derived float cells compared with 1e-9 relative tolerance; indices, labels, NaN pattern and errors exactly']
 
 
@@ -34,13 +36,23 @@ def sample_cols(center):
 # generation
 
 def gen_case(rng, tier, methods=('cycles', 'amp'), centers=('peak', 'trough'), kinds=None, max_len=480,
-             fek_prob=0.7, extra=None):
+             fek_prob=0.7, extra=None, wide=False, f32=False, rs_prob=0.85):
+    """One compute_features case.  wide=True additionally varies the band (off-band / narrow / wide), the type and
+    value of fs, the container of f_range, the sample dtype (int64; float32 with f32=True) and generates empty option
+    dictionaries (gen.vary); the default keeps the original stream of the drivers that did not ask for it."""
     s = gen.signal(rng, kind=(rng.choice(kinds) if kinds else None), max_len=max_len)
+    if wide:
+        s = gen.vary(rng, s, f32=f32)
     n = len(s['sig'])
     method = rng.choice(list(methods))
-    c = {'kind': 'pipe/%s/%s' % (method, s['kind']), 'sig': gen.hexlist(s['sig']), 'fs': s['fs'],
+    tag = ''.join('+' + x for x in (s.get('band'), s.get('dtype')) if x)
+    c = {'kind': 'pipe/%s/%s%s' % (method, s['kind'], tag), 'sig': gen.hexlist(s['sig']), 'fs': s['fs'],
          'f_range': list(s['f_range']), 'center': rng.choice(list(centers)), 'method': method,
-         'return_samples': rng.random() < 0.85}
+         'return_samples': rng.random() < rs_prob}
+    if wide:
+        c['f_range_as'] = rng.choice(['tuple', 'list'])
+        if s.get('dtype'):
+            c['dtype'] = s['dtype']
     fek = None
     if rng.random() < fek_prob:
         fek = {}
@@ -48,7 +60,9 @@ def gen_case(rng, tier, methods=('cycles', 'amp'), centers=('peak', 'trough'), k
         if r < 0.45:
             fek['filter_kwargs'] = {'n_cycles': rng.choice([1, 2, 3, 4])}
         elif r < 0.7:
-            fek['filter_kwargs'] = {'n_seconds': round(rng.choice([0.3, 0.45, 0.6, 0.9, 2.5, 3, 4]) * s['period'] / s['fs'] / 0.7, 6)}
+            k = rng.choice([0.3, 0.45, 0.6, 0.9, 2.5, 3, 4])         # filter length in periods of the low cut-off
+            fek['filter_kwargs'] = {'n_seconds': round(k * s['nsec_unit'] if 'nsec_unit' in s else
+                                                       k * s['period'] / s['fs'] / 0.7, 6)}
         if rng.random() < 0.6:
             fek['boundary'] = rng.choice([0, 1, 5, n // 10])
         if rng.random() < 0.2:
@@ -83,6 +97,12 @@ def gen_case(rng, tier, methods=('cycles', 'amp'), centers=('peak', 'trough'), k
             if rng.random() < 0.25:
                 bk['min_burst_duration'] = rng.choice([0, 0, round(rng.choice([1, 2, 3]) * s['period'] / s['fs'], 6)])
         c['thr'], c['bk'] = thr, bk
+    if wide and method == 'cycles':
+        # empty option dictionaries (what the object interface passes for "no options")
+        if rng.random() < 0.08:
+            c['thr'] = {}
+        if rng.random() < 0.15:
+            c['bk'] = {}
     if extra:
         c.update(extra)
     return c
@@ -91,8 +111,10 @@ def gen_case(rng, tier, methods=('cycles', 'amp'), centers=('peak', 'trough'), k
 # ----------------------------------------------------------------------------------------------
 # running the implementation
 
-def table_to_rows(df, center):
-    """DataFrame -> list of dict rows (python scalars), sample columns by generic names."""
+def table_to_rows(df, center, shape_only=False):
+    """DataFrame -> list of dict rows (python scalars), sample columns by generic names.  shape_only: the table of
+    compute_shape_features (no burst columns): burst cells are filled with the values the model gives for an
+    all-False detector mask so that the same Coq runner compares the shape part only."""
     sc = sample_cols(center)
     have_samples = all(col in df.columns for col in sc)
     rows = []
@@ -104,10 +126,22 @@ def table_to_rows(df, center):
             r['s'] = [int(cols[col][i]) for col in sc]
         r['int'] = [int(cols[col][i]) for col in SHAPE_INT]
         r['flt'] = [float(cols[col][i]) for col in SHAPE_FLT]
-        r['burst'] = [float(cols[col][i]) if col in cols else float('nan') for col in BURST]
-        r['is_burst'] = bool(cols['is_burst'][i])
+        if shape_only:
+            r['burst'] = [float('nan')] * 4 + [0.0]
+            r['is_burst'] = False
+        else:
+            r['burst'] = [float(cols[col][i]) if col in cols else float('nan') for col in BURST]
+            r['is_burst'] = bool(cols['is_burst'][i])
         rows.append(r)
     return rows, have_samples
+
+
+def expected_columns(c, samples=True):
+    """Documented column set of the table (compute_features docstring; shape table for a shape-only case)."""
+    cols = SHAPE_INT + SHAPE_FLT
+    if not c.get('shape_only'):
+        cols = cols + (BURST[:4] if c['method'] == 'cycles' else BURST[4:]) + ['is_burst']
+    return sorted(cols + (sample_cols(c['center']) if samples else []))
 
 
 def build_kwargs(c):
@@ -123,12 +157,32 @@ def build_kwargs(c):
     return kw
 
 
+def sig_of(c):
+    """The signal array as it is passed to the implementation (float64 unless the case says int64 / float32)."""
+    return gen.typed(gen.unhexlist(c['sig']), c.get('dtype'))
+
+
+def band_of(c, f_range=None):
+    fr = f_range or c['f_range']
+    return list(fr) if c.get('f_range_as') == 'list' else tuple(fr)
+
+
 def call_compute_features(sig, c, center=None, return_samples=True, fs=None, f_range=None, kw=None):
     from bycycle.features import compute_features
     if kw is None:
         kw = build_kwargs(c)
-    return compute_features(sig, fs or c['fs'], tuple(f_range or c['f_range']), center_extrema=center or c['center'],
+    return compute_features(sig, fs or c['fs'], band_of(c, f_range), center_extrema=center or c['center'],
                             burst_method=c['method'], return_samples=return_samples, **kw)
+
+
+def call_fit(sig, c, kw):
+    """The object interface with the same option objects, all settings positional as documented:
+    Bycycle(center_extrema, burst_method, burst_kwargs, thresholds, find_extrema_kwargs, return_samples)."""
+    from bycycle import Bycycle
+    bm = Bycycle(c['center'], c['method'], kw.get('burst_kwargs'), kw.get('threshold_kwargs'),
+                 kw.get('find_extrema_kwargs'), c['return_samples'])
+    bm.fit(sig, c['fs'], band_of(c))
+    return bm.df_features
 
 
 def _deep(d):
@@ -152,7 +206,7 @@ def resolved(c):
     """Settings as documented: filter options, boundary, pad, thresholds with defaults, min-cycle count."""
     fek = c['fek']
     if fek is None:
-        fk, boundary, pad = {'n_cycles': 3}, 0, True
+        fk, boundary, pad = {'n_cycles': c.get('n_cycles', 3)}, 0, True      # n_cycles: compute_shape_features only
     else:
         fk = fek.get('filter_kwargs') or {}
         boundary, pad = fek.get('boundary', 0), fek.get('pad', True)
@@ -171,20 +225,37 @@ def resolved(c):
     return r
 
 
+def _rows_of(df, c, out, shape_only=False):
+    """Record the returned table; a table without the documented columns cannot be read and is recorded as an error."""
+    try:
+        rows, hs = table_to_rows(df, c['center'], shape_only=shape_only)
+    except KeyError as e:
+        out['err'], out['errmsg'] = 'Key', 'harness: the returned table has no column %s' % e
+        return
+    out['columns'] = sorted(str(x) for x in df.columns)
+    if not hs:
+        out['err'], out['errmsg'] = 'Key', 'harness: the returned table lacks sample columns %s' % (
+            [x for x in sample_cols(c['center']) if x not in df.columns],)
+        return
+    out['rows'] = _jsonable(rows)
+
+
 def run_pipe(c):
-    sig = gen.unhexlist(c['sig'])
+    sigf = gen.unhexlist(c['sig'])          # float64 value of every sample: reference kernels and model
+    sig = sig_of(c)                         # the array handed to the implementation
     out = {}
     rs = resolved(c)
-    sigc = sig if c['center'] == 'peak' else -sig
+    sigc = sigf if c['center'] == 'peak' else -sigf
+    fr = tuple(c['f_range'])
     # reference kernels (neurodsp only)
     try:
-        pos, padn, nz = ref.ref_filter_pos(sigc, c['fs'], tuple(c['f_range']), rs['fk'], rs['pad'])
-        amp = ref.ref_amp(sigc, c['fs'], tuple(c['f_range']), 3)
+        pos, padn, nz = ref.ref_filter_pos(sigc, c['fs'], fr, rs['fk'], rs['pad'])
+        amp = ref.ref_amp(sigc, c['fs'], fr, 3)
         if not np.isfinite(amp).all():
             return {'skip': 'reference envelope not finite'}
         refd = {'pos': coqio.mask_of(pos), 'npos': len(pos), 'padn': padn, 'nzero': nz, 'amp': gen.hexlist(amp)}
         if c['method'] == 'amp':
-            mask = ref.ref_dualthresh(sig, c['fs'], tuple(c['f_range']), rs['amp_threshes'], rs['n'],
+            mask = ref.ref_dualthresh(sigf, c['fs'], fr, rs['amp_threshes'], rs['n'],
                                       rs['min_burst_duration'], rs['bk_filter_kwargs'])
             refd['mask'] = coqio.mask_of(mask)
             refd['nmask'] = len(mask)
@@ -195,21 +266,34 @@ def run_pipe(c):
     kw = build_kwargs(c)
     try:
         df = call_compute_features(sig, c, return_samples=True, kw=kw)
-        rows, hs = table_to_rows(df, c['center'])
-        out['rows'] = _jsonable(rows)
-        out['columns'] = sorted(df.columns)
     except Exception as e:
+        df = None
         out['err'] = exc_kind(e)
         out['errmsg'] = str(e)[:200]
+    if df is not None:
+        _rows_of(df, c, out)
     out['sig_unchanged'] = bool(np.array_equal(sig, snap))
     if 'rows' in out and not c['return_samples']:
         try:
             df2 = call_compute_features(sig, c, return_samples=False, kw=kw)
             rows2, hs2 = table_to_rows(df2, c['center'])
-            out['nosamples_ok'] = (not any(col.startswith('sample_') for col in df2.columns)) and \
-                _jsonable(rows2) == [dict(r, s=None) for r in out['rows']]
+            out['columns2'] = sorted(str(x) for x in df2.columns)
+            out['rows2'] = _jsonable(rows2)
+            out['nosamples_ok'] = (not any(col.startswith('sample_') for col in out['columns2'])) and \
+                [dict(r, s=None) for r in out['rows2']] == [dict(r, s=None) for r in out['rows']]
         except Exception as e:
             out['nosamples_ok'] = False
+            out['nosamples_err'] = '%s: %s' % (exc_kind(e), str(e)[:200])
+    if c.get('fit'):
+        # the object interface named by C01, same option objects
+        try:
+            df3 = call_fit(sig, c, kw)
+            rows3, hs3 = table_to_rows(df3, c['center'])
+            out['fit_columns'] = sorted(str(x) for x in df3.columns)
+            out['fit_rows'] = _jsonable(rows3)
+        except Exception as e:
+            out['fit_err'] = exc_kind(e)
+            out['fit_errmsg'] = str(e)[:200]
     if 'rows' in out and c.get('want_mirror'):
         other = 'trough' if c['center'] == 'peak' else 'peak'
         try:
@@ -236,25 +320,155 @@ def run_pipe(c):
                 out['fsmult'] = _jsonable(table_to_rows(dff, c['center'])[0])
         except Exception as e:
             out['fsmult_err'] = exc_kind(e)
+    hd = harness_diff(c, out)
+    if hd:
+        out['harness_diff'] = hd
     return out
+
+
+def gen_shape_case(rng, tier):
+    """compute_shape_features called directly with its own n_cycles argument (default extrema filter when
+    find_extrema_kwargs is None, and length of the band-amplitude filter)."""
+    c = gen_case(rng, tier, methods=('cycles',), fek_prob=0.5, wide=True)
+    c['kind'] = 'shape/' + c['kind'].split('/', 2)[2]
+    c.update(shape_only=True, n_cycles=rng.choice([2, 3, 5]), thr=None, bk=None, return_samples=True)
+    return c
+
+
+def _same(a, b):
+    a, b = np.asarray(a, dtype=float), np.asarray(b, dtype=float)
+    return a.shape == b.shape and bool(np.array_equal(a, b, equal_nan=True))
+
+
+def run_shape(c):
+    """compute_shape_features(sig, fs, f_range, center_extrema, find_extrema_kwargs, n_cycles=k) and, on the same
+    input, the public helpers compute_symmetry (period=None branch) and rename_extrema_df(return_samples=False)."""
+    from bycycle.features import compute_shape_features, compute_cyclepoints
+    sigf = gen.unhexlist(c['sig'])
+    sig = sig_of(c)
+    k = c['n_cycles']
+    rs = resolved(c)
+    out = {}
+    sigc = sigf if c['center'] == 'peak' else -sigf
+    fr = tuple(c['f_range'])
+    try:
+        pos, padn, nz = ref.ref_filter_pos(sigc, c['fs'], fr, rs['fk'], rs['pad'])
+        amp = ref.ref_amp(sigc, c['fs'], fr, k)
+        if not np.isfinite(amp).all():
+            return {'skip': 'reference envelope not finite'}
+        out['ref'] = {'pos': coqio.mask_of(pos), 'npos': len(pos), 'padn': padn, 'nzero': nz, 'amp': gen.hexlist(amp),
+                      'mask': 0, 'nmask': len(sigf)}
+    except Exception as e:
+        return {'skip': 'reference kernel failed: %s: %s' % (type(e).__name__, e)}
+    fek = _deep(c['fek']) if c['fek'] is not None else None
+    try:
+        df = compute_shape_features(sig, c['fs'], band_of(c), center_extrema=c['center'], find_extrema_kwargs=fek, n_cycles=k)
+    except Exception as e:
+        df = None
+        out['err'] = exc_kind(e)
+        out['errmsg'] = str(e)[:200]
+    if df is not None:
+        _rows_of(df, c, out, shape_only=True)
+    if 'rows' not in out:
+        return out
+    diffs = []
+    try:
+        import bycycle.features.shape as sh
+        fek2 = fek if fek is not None else {'filter_kwargs': {'n_cycles': k}}
+        sc = sig_of(c) if c['center'] == 'peak' else -sig_of(c)
+        dfs = compute_cyclepoints(sc, c['fs'], band_of(c), **fek2)
+        sym = sh.compute_symmetry(dfs, sc)
+        peak = c['center'] == 'peak'
+        pairs = [('time_decay', 'time_decay' if peak else 'time_rise'), ('time_rise', 'time_rise' if peak else 'time_decay'),
+                 ('volt_decay', 'volt_decay' if peak else 'volt_rise'), ('volt_rise', 'volt_rise' if peak else 'volt_decay'),
+                 ('volt_amp', 'volt_amp')]
+        for a, b in pairs:
+            if not _same(sym[a], df[b]):
+                diffs.append('compute_symmetry(df_samples, sig)[%s] differs from the table column %s' % (a, b))
+        for a in ('time_rdsym', 'time_ptsym'):
+            w = np.asarray(sym[a], dtype=float)
+            if not _same(w if peak else 1 - w, df[a]):
+                diffs.append('compute_symmetry(df_samples, sig)[%s] differs from the table column' % a)
+    except Exception as e:
+        diffs.append('compute_cyclepoints / compute_symmetry(df_samples, sig) raised %s: %s' % (type(e).__name__, str(e)[:120]))
+    if c['center'] == 'trough':
+        try:
+            from bycycle.utils.dataframes import rename_extrema_df, drop_samples_df
+            dfp = compute_shape_features(-sig_of(c), c['fs'], band_of(c), center_extrema='peak', find_extrema_kwargs=fek,
+                                         n_cycles=k)
+            dfr = rename_extrema_df('trough', drop_samples_df(dfp), return_samples=False)
+            want = drop_samples_df(df)
+            if sorted(dfr.columns) != sorted(want.columns):
+                diffs.append('rename_extrema_df(trough, table without samples, return_samples=False): columns %s' % sorted(dfr.columns))
+            else:
+                for col in want.columns:
+                    if not _same(dfr[col], want[col]):
+                        diffs.append('rename_extrema_df(return_samples=False): column %s differs from the trough-centred table' % col)
+        except Exception as e:
+            diffs.append('rename_extrema_df(return_samples=False) path raised %s: %s' % (type(e).__name__, str(e)[:120]))
+    if diffs:
+        out['helper_diffs'] = diffs[:4]
+    hd = harness_diff(c, out)
+    if hd:
+        out['harness_diff'] = hd
+    return out
+
+
+def harness_diff(c, o):
+    """Differences that no property statement pins but that the harness reports all the same (they reach the summary
+    through the model comparison, see coq_case): undocumented / missing columns, a return_samples=False table that is
+    not the same table without its sample columns, a Bycycle.fit table that is not the compute_features table,
+    stand-alone helpers disagreeing with the table."""
+    if c.get('fit') and 'ref' in o and ('fit_err' in o) != ('err' in o):
+        return 'Bycycle.fit %s where compute_features %s' % (('raised %sError' % o['fit_err']) if 'fit_err' in o else 'returned a table',
+                                                           ('raised %sError' % o['err']) if 'err' in o else 'returned a table')
+    if 'rows' not in o:
+        return None
+    want = expected_columns(c)
+    if o.get('columns') != want:
+        return 'column set differs from the documented one by %s' % (sorted(set(o.get('columns', [])) ^ set(want)),)
+    if 'columns2' in o and o['columns2'] != expected_columns(c, samples=False):
+        return 'return_samples=False columns differ from the documented set by %s' % (
+            sorted(set(o['columns2']) ^ set(expected_columns(c, samples=False))),)
+    if 'rows2' in o and [dict(r, s=None) for r in o['rows2']] != [dict(r, s=None) for r in o['rows']]:
+        return 'return_samples=False table differs from the return_samples=True table in a feature cell'
+    if 'fit_rows' in o:
+        if c['return_samples']:
+            same = o['fit_rows'] == o['rows'] and o['fit_columns'] == o['columns']
+        else:
+            same = o['fit_rows'] == [dict(r, s=None) for r in o['rows']] and o['fit_columns'] == o.get('columns2')
+        if not same:
+            return 'Bycycle.fit table differs from the compute_features table for the same option objects'
+    if o.get('helper_diffs'):
+        return o['helper_diffs'][0]
+    return None
 
 
 # ----------------------------------------------------------------------------------------------
 # Coq encoding
 
 def coq_case(c, o):
-    if 'skip' in o or 'ref' not in o:
+    """(model input, implementation output) as Coq terms.  float32 cases are not compared (the implementation then
+    computes the voltage columns in single precision; the model is binary64).  A shape-only case (compute_shape_features)
+    goes through the same runner with an all-False detector mask, whose burst cells table_to_rows has filled in.
+    A harness-level difference (harness_diff) is sent as an implementation result that no model result equals, so that
+    it surfaces as a model/implementation mismatch (reported without a failing input for the property)."""
+    if 'skip' in o or 'ref' not in o or c.get('dtype') == 'float32':
         return None
     sig = gen.unhexlist(c['sig'])
     rs = resolved(c)
     rf = o['ref']
-    if c['method'] == 'cycles':
+    if c.get('shape_only'):
+        meth = '(MAmp %s %s %s%%Z)' % (coqio.barr(rf['nmask'], 0), coqio.fl(1.0), coqio.Z(3))
+    elif c['method'] == 'cycles':
         meth = '(MCycles (%s) %s%%Z)' % (', '.join(coqio.fl(t) for t in rs['thr']), coqio.Z(rs['n']))
     else:
         meth = '(MAmp %s %s %s%%Z)' % (coqio.barr(rf['nmask'], rf['mask']), coqio.fl(rs['bft']), coqio.Z(rs['n']))
     inp = '(%s, %s, (%s, %d%%nat, %s), %s%%Z, %s)' % (
         'Peak' if c['center'] == 'peak' else 'Trough', coqio.flist(sig), coqio.barr(rf['npos'], rf['pos']), rf['padn'],
         coqio.flist(gen.unhexlist(rf['amp'])), coqio.Z(rs['boundary']), meth)
+    if o.get('harness_diff'):
+        return inp, '(Err EOther)'
     if 'err' in o:
         return inp, '(Err %s)' % ERRMAP.get(o['err'], 'EOther')
     rows = unjson(o['rows'])
@@ -294,56 +508,163 @@ def full_oscillations(c, o):
     return max(rises, decays) - 1
 
 
-def oracle_structure(c, o):
-    """C01: table instead of raising; ordering, bounds, tiling, alternation."""
-    if 'skip' in o:
+def model_degenerate(o):
+    """True when the (padded) band-passed signal has no rising or no falling zero crossing at all: the model then
+    answers `Err EDegenerate` and the model comparison accepts any implementation result (it is void)."""
+    rf = o['ref']
+    bits = [(rf['pos'] >> i) & 1 for i in range(rf['npos'])]
+    rise = any((not a) and b for a, b in zip(bits, bits[1:]))
+    decay = any(a and (not b) for a, b in zip(bits, bits[1:]))
+    return not (rise and decay)
+
+
+def expected_cycles(c, o):
+    """The cycles C01 speaks of, from the reference kernel alone: every half-wave of the band-passed signal that is
+    closed by zero crossings on both sides carries one extremum of the raw signal (a peak on a positive, a trough on a
+    negative half-wave; kinds read in the frame of the centre extremum); extrema within the boundary are discarded; a
+    cycle is side extremum - centre extremum - side extremum.  Returns the list of admissible segmentations, each a list
+    of cycles, each cycle a triple of inclusive index windows (last, centre, next) in signal coordinates.  More than one
+    segmentation is admissible because C01 fixes neither how ties nor how the ends of a half-wave window are resolved
+    (that can decide whether an outermost extremum survives the boundary), nor whether a leading complete cycle whose
+    preceding rise/decay span is not available (no centre-kind extremum before it) gets a row.  None = too ambiguous."""
+    import itertools
+    rf = o['ref']
+    padn, npos = rf['padn'], rf['npos']
+    n = len(c['sig'])
+    b = resolved(c)['boundary']
+    sig = gen.unhexlist(c['sig'])
+    sigc = sig if c['center'] == 'peak' else -sig
+    sigp = np.pad(sigc, padn) if padn else sigc
+    if len(sigp) != npos:
         return None
-    if 'err' in o or not o['rows']:
-        if full_oscillations(c, o) < 3:
-            return None      # outside the property's domain: fewer than three full oscillations in the band-passed signal
-        if 'err' in o:
-            return 'raised %sError (%s) instead of returning a table' % (o['err'], o.get('errmsg', ''))
-        return 'empty table'
-    rows = o['rows']
+    bits = [(rf['pos'] >> i) & 1 for i in range(npos)]
+    cross = [(i, bits[i + 1]) for i in range(npos - 1) if bits[i] != bits[i + 1]]
+    waves = []                     # (kind, window, status) with status True / False / None (= depends on conventions)
+    for (a, k), (e, _) in zip(cross, cross[1:]):
+        # half-wave: samples a+1 .. e have the sign k; the code searches a .. e-1; accept anything in a .. e
+        cands = set()
+        for lo, hi in ((a, e), (a + 1, e + 1)):
+            seg = sigp[lo:hi]
+            if len(seg) == 0:
+                continue
+            v = seg.max() if k else seg.min()
+            idx = np.flatnonzero(seg == v)
+            cands.add(lo + int(idx[0]))
+            cands.add(lo + int(idx[-1]))
+        alive = set(b < p - padn < n - b for p in cands)
+        waves.append(('C' if k else 'S', (a - padn, e - padn), alive.pop() if len(alive) == 1 else None))
+    maybe = [i for i, w in enumerate(waves) if w[2] is None]
+    if len(maybe) > 4:
+        return None
+    alts = []
+    for choice in itertools.product([False, True], repeat=len(maybe)):
+        st = [w[2] for w in waves]
+        for i, v in zip(maybe, choice):
+            st[i] = v
+        on = [i for i, v in enumerate(st) if v]
+        if on and on != list(range(on[0], on[-1] + 1)):
+            continue               # survivors are a contiguous stretch (positions increase with the half-waves)
+        seq = [waves[i] for i in on]
+        full = [(seq[i][1], seq[i + 1][1], seq[i + 2][1]) for i in range(len(seq) - 2) if seq[i][0] == 'S']
+        for alt in (full, full[1:] if (seq and seq[0][0] == 'S') else full):
+            if alt not in alts:
+                alts.append(alt)
+    return alts
+
+
+def _structure(rows, c, o, what):
+    """Row-wise clauses of C01 on one table (list of unjson'ed / json rows with sample indices)."""
     n = len(c['sig'])
     b = resolved(c)['boundary']
     peak = c['center'] == 'peak'
     for i, r in enumerate(rows):
         ce, la, nx, zr, zd, lz = r['s']
         if not (la < ce < nx):
-            return 'row %d: extrema not ordered last<centre<next: %s' % (i, r['s'])
+            return '%srow %d: extrema not ordered last<centre<next: %s' % (what, i, r['s'])
         m1, m2 = (zr, zd) if peak else (zd, zr)   # midpoint before / after the centre
         if not (la <= m1 <= ce <= m2 <= nx):
-            return 'row %d: midpoints outside the extrema they separate: %s' % (i, r['s'])
+            return '%srow %d: midpoints outside the extrema they separate: %s' % (what, i, r['s'])
         if not (lz <= la):
-            return 'row %d: previous midpoint after the last side extremum: %s' % (i, r['s'])
+            return '%srow %d: previous midpoint after the last side extremum: %s' % (what, i, r['s'])
         for v in (ce, la, nx, zr, zd):
             if not (b < v < n - b):
-                return 'row %d: index %d outside (boundary, len-boundary)' % (i, v)
+                return '%srow %d: index %d outside (boundary, len-boundary)' % (what, i, v)
         if not (0 <= lz < n):
-            return 'row %d: index outside the signal' % i
+            return '%srow %d: index outside the signal' % (what, i)
         if i > 0 and rows[i - 1]['s'][2] != la:
-            return 'rows %d,%d do not share their side extremum' % (i - 1, i)
-    if c['return_samples'] is False and not o.get('nosamples_ok', True):
-        return 'return_samples=False does not give the same table without sample columns'
-    if not o.get('sig_unchanged', True):
-        return 'input signal modified'
+            return '%srows %d,%d do not share their side extremum' % (what, i - 1, i)
+    # one row per cycle; peaks and troughs alternate: the rows are exactly the consecutive cycles of the band-passed signal
+    if full_oscillations(c, o) >= 3:
+        exp = expected_cycles(c, o)
+        if exp:
+            cand = [e for e in exp if len(e) == len(rows)]
+            if not cand:
+                return '%s%d rows, but the band-passed signal has %s cycles beyond the boundary' % (
+                    what, len(rows), ' or '.join(str(k) for k in sorted(set(len(e) for e in exp))))
+            msg = None
+            for e in cand:
+                msg = None
+                for i, (r, (wl, wc, wn)) in enumerate(zip(rows, e)):
+                    ce, la, nx = r['s'][:3]
+                    if not (wl[0] <= la <= wl[1] and wc[0] <= ce <= wc[1] and wn[0] <= nx <= wn[1]):
+                        msg = ('%srow %d is not cycle %d of the band-passed signal: extrema (%d, %d, %d) outside the half-waves '
+                               '%s, %s, %s' % (what, i, i, la, ce, nx, list(wl), list(wc), list(wn)))
+                        break
+                if msg is None:
+                    break
+            if msg:
+                return msg
     return None
 
 
-def oracle_shape(c, o):
-    """C04: each shape feature is the documented function of the row's cyclepoints and the ORIGINAL signal."""
-    if 'skip' in o or 'err' in o:
+def oracle_structure(c, o):
+    """C01: table instead of raising; one row per cycle; ordering, bounds, tiling, alternation; for compute_features and,
+    when the case asks for it, Bycycle.fit / df_features."""
+    if 'skip' in o:
         return None
-    sig = gen.unhexlist(c['sig'])
-    amp = gen.unhexlist(o['ref']['amp'])
-    peak = c['center'] == 'peak'
-    for i, r in enumerate(unjson(o['rows'])):
-        ce, la, nx, zr, zd, lz = r['s']
+    in_domain = None
+    if 'err' in o or not o['rows']:
+        in_domain = full_oscillations(c, o) >= 3
+        # outside the property's domain: fewer than three full oscillations in the band-passed signal
+        if in_domain and 'err' in o:
+            return 'raised %sError (%s) instead of returning a table' % (o['err'], o.get('errmsg', ''))
+        if in_domain:
+            return 'empty table'
+    else:
+        msg = _structure(o['rows'], c, o, '')
+        if msg:
+            return msg
+        if c['return_samples'] is False and not o.get('nosamples_ok', True):
+            return 'return_samples=False does not give the same table without sample columns'
+        if not o.get('sig_unchanged', True):
+            return 'input signal modified'
+    if c.get('fit'):
+        if in_domain is None:
+            in_domain = full_oscillations(c, o) >= 3
+        if 'fit_err' in o or ('fit_rows' in o and not o['fit_rows']):
+            if in_domain:
+                return 'Bycycle.fit %s instead of giving a table' % (
+                    'raised %sError (%s)' % (o['fit_err'], o.get('fit_errmsg', '')) if 'fit_err' in o else 'gave an empty table')
+        elif 'fit_rows' in o:
+            if c['return_samples']:
+                if any(r.get('s') is None for r in o['fit_rows']):
+                    return 'Bycycle.fit with return_samples=True gives a table without the sample columns'
+                msg = _structure(o['fit_rows'], c, o, 'Bycycle.fit: ')
+                if msg:
+                    return msg
+            elif 'rows' in o and len(o['fit_rows']) != len(o['rows']) and in_domain:
+                return 'Bycycle.fit: %d rows, compute_features %d rows' % (len(o['fit_rows']), len(o['rows']))
+    return None
+
+
+def _shape_rows(rows, srows, sig, amp, peak, tol, what):
+    """C04 formulas on `rows`, cyclepoints taken from `srows` (the same table, or the table with sample columns)."""
+    for i, (r, sr) in enumerate(zip(rows, srows)):
+        ce, la, nx, zr, zd, lz = sr['s']
         per, tpk, ttr, tdec, tris = r['int']
         vpk, vtr, vdec, vris, vamp, rdsym, ptsym, bamp = r['flt']
         if per != nx - la or per != tris + tdec:
-            return 'row %d: period %d != next-last %d or != rise+decay' % (i, per, nx - la)
+            return '%srow %d: period %d != next-last %d or != rise+decay' % (what, i, per, nx - la)
         if peak:
             want = dict(tris=ce - la, tdec=nx - ce, tpk=zd - zr, ttr=zr - lz, vpk=sig[ce], vtr=sig[la],
                         vris=sig[ce] - sig[la], vdec=sig[ce] - sig[nx])
@@ -354,19 +675,46 @@ def oracle_shape(c, o):
         for k in want:
             if isinstance(want[k], (int, np.integer)):
                 if got[k] != want[k]:
-                    return 'row %d: %s = %s, documented value %s' % (i, k, got[k], want[k])
-            elif not close(got[k], float(want[k])):
-                return 'row %d: %s = %r, documented value %r' % (i, k, got[k], float(want[k]))
-        if not close(vamp, (vris + vdec) / 2):
-            return 'row %d: volt_amp is not the mean of volt_rise and volt_decay' % i
+                    return '%srow %d: %s = %s, documented value %s' % (what, i, k, got[k], want[k])
+            elif not close(got[k], float(want[k]), tol):
+                return '%srow %d: %s = %r, documented value %r' % (what, i, k, got[k], float(want[k]))
+        if not close(vamp, (vris + vdec) / 2, tol):
+            return '%srow %d: volt_amp is not the mean of volt_rise and volt_decay' % (what, i)
         if tpk < 0 or ttr < 0 or tpk + ttr <= 0:
-            return 'row %d: negative time_peak/time_trough' % i
+            return '%srow %d: negative time_peak/time_trough' % (what, i)
         if not close(rdsym, tris / per) or not (0 < rdsym < 1):
-            return 'row %d: time_rdsym %r != time_rise/period %r or outside (0,1)' % (i, rdsym, tris / per)
+            return '%srow %d: time_rdsym %r != time_rise/period %r or outside (0,1)' % (what, i, rdsym, tris / per)
         if not close(ptsym, tpk / (tpk + ttr)) or not (0 <= ptsym <= 1):
-            return 'row %d: time_ptsym %r != time_peak/(time_peak+time_trough) or outside [0,1]' % (i, ptsym)
-        if not close(bamp, float(np.mean(amp[la:nx])), 1e-8):
-            return 'row %d: band_amp %r != mean envelope over [last,next) %r' % (i, bamp, float(np.mean(amp[la:nx])))
+            return '%srow %d: time_ptsym %r != time_peak/(time_peak+time_trough) or outside [0,1]' % (what, i, ptsym)
+        want_b = float(np.mean(amp[la:nx]))
+        if not close(bamp, want_b, max(tol, 1e-8)):
+            return '%srow %d: band_amp %r != mean envelope over [last,next) %r' % (what, i, bamp, want_b)
+    return None
+
+
+def oracle_shape(c, o):
+    """C04: each shape feature is the documented function of the row's cyclepoints and the ORIGINAL signal, with and
+    without sample columns (the return_samples=False table is read against the cyclepoints of the return_samples=True
+    run of the same input)."""
+    if 'skip' in o or 'err' in o:
+        return None
+    sig = gen.unhexlist(c['sig'])
+    amp = gen.unhexlist(o['ref']['amp'])
+    peak = c['center'] == 'peak'
+    # float32 samples: voltage differences are formed in single precision (correctly rounded: 2^-24 relative)
+    tol = 1e-6 if c.get('dtype') == 'float32' else 1e-9
+    rows = unjson(o['rows'])
+    msg = _shape_rows(rows, rows, sig, amp, peak, tol, '')
+    if msg:
+        return msg
+    if 'rows2' in o:
+        bad = [x for x in o.get('columns2', []) if x.startswith('sample_')]
+        if bad:
+            return 'return_samples=False: table still has sample columns %s' % bad
+        rows2 = unjson(o['rows2'])
+        if len(rows2) != len(rows):
+            return 'return_samples=False: %d rows, with sample columns %d rows' % (len(rows2), len(rows))
+        return _shape_rows(rows2, rows, sig, amp, peak, tol, 'return_samples=False: ')
     return None
 
 
@@ -573,7 +921,22 @@ def nontrivial_table(c, o, need_labels=False):
     return True
 
 
+VOID = {'n': 0}
+
+
+def extra_evidence():
+    """Number of cases of this run on which the model comparison was void (model answers Err EDegenerate)."""
+    return {'model_comparison_void_cases': VOID['n']}
+
+
 def kind_of(c, o):
+    """Input class for the evidence: generator kind, outcome, and `/model-void` when the model answers Err EDegenerate
+    (no rising or no falling crossing in the reference band-pass) so that the comparison accepts anything."""
+    void = '/model-void' if ('ref' in o and model_degenerate(o)) else ''
+    if void:
+        VOID['n'] += 1
+    if c.get('dtype') == 'float32' and 'ref' in o:
+        void += '/oracle-only'
     if 'err' in o and 'ref' in o:
-        return c['kind'] + ('/err-fewer-than-3-oscillations' if full_oscillations(c, o) < 3 else '/err')
-    return c['kind'] + ('/skip' if 'skip' in o else '/err' if 'err' in o else '')
+        return c['kind'] + ('/err-fewer-than-3-oscillations' if full_oscillations(c, o) < 3 else '/err') + void
+    return c['kind'] + ('/skip' if 'skip' in o else '/err' if 'err' in o else '') + void
